@@ -53,6 +53,13 @@ CHECKS.update({
                     "MonChunk.tla re-checks Partition on what the real code returned. thorough = all 1<=T<=N<=1024.",
             "ref": "6/C09", "note": "pure function: the whole stated domain is enumerated in the thorough tier; quick uses N<=96 plus the bucket sizes in use",
             "technique": "TLA+ transcription model-checked exhaustively (TLC) + table replay into the real function + TLC re-check of its outputs"},
+    "C19": {"text": "HealthCheck.tla models run / performHealthCheck / Start / Stop at the granularity of the client's Ping call; TLC checks "
+                    "exhaustively (two rounds, every pattern, Stop anywhere) that the process dies exactly on five consecutive failures of "
+                    "a round, that Stop returns and that no ping follows it; all 2^5 round patterns, second rounds and Stop positions are "
+                    "executed on the real health checker (one process each, fail-stop observed as process death) and the same monitor is "
+                    "evaluated by TLC on the recorded events.",
+            "ref": "6/C19", "note": "fake client; the 1 s retry wait and the ticker are real time (25 ms interval); Stop before Start not explored",
+            "technique": "TLA+ model checking (TLC) + exhaustive pattern replay on real code + TLC trace monitor"},
     "C11": {"text": "lifecycle part of Core.tla (notifications from bus, API and re-armed timer; rebalance lock; Close up to "
                     "per-vBucket CloseStream; timers; re-open through Load/SeqNos/OpenStream; wait goroutines and finish tokens) "
                     "checked exhaustively against the bracket grammar of callbacks, one close per burst, range of the most "
